@@ -341,6 +341,24 @@ def _validate_job(job):
     return [byk[i] for i in range(1, n + 1)]
 
 
+class NotAnIndex(TypeError):
+    pass
+
+
+def idx(v):
+    """A value the code under test returns as an array index, slice bound, tile index or size must BE an integer (usable with
+    numpy indexing): 3.0 is not 3.  The drivers encode such values with idx(), never with int(), so that a float, a numpy float or
+    None where an integer is owed becomes the case's outcome (raised_NotAnIndex) instead of being rounded silently."""
+    import operator
+
+    if isinstance(v, bool):
+        raise NotAnIndex(f"{v!r} (bool) where an integer index is owed")
+    try:
+        return operator.index(v)
+    except TypeError:
+        raise NotAnIndex(f"{v!r} ({type(v).__name__}) is not usable as an array index") from None
+
+
 def outcome_of(fn, *a, **kw):
     """Run real code, returning ("ok", value) or (ExceptionClassName, message)."""
     try:
